@@ -4,6 +4,7 @@ case.  Runs the executable (`Float`) reading of the model.
 -/
 import Geodesy.Model.Wire
 import Geodesy.Model.Proj
+import Geodesy.Model.Ctx.Context
 import Geodesy.Gen.Tables
 
 open Geodesy Geodesy.Text Geodesy.Wire
@@ -140,8 +141,62 @@ def handleProj (fields : List String) : String :=
     | .error e => "err " ++ e.name
   | _ => "bad-case"
 
+/-- a history of API calls on one context: `R|name|ctor`, `S|name|body`, `O|definition`,
+`A|handle|dir|data`, `T|handle`, `P|handle|index` -/
+def handleHist (fields : List String) : String :=
+  match fields with
+  | kind :: calls =>
+    let init : Ctx.State Float :=
+      { users := [], operators := [], plain := kind.startsWith "plain"
+        resources := if kind == "new" || kind == "plain-new" then Gen.builtinAdaptors.map (fun p => (S p.1, S p.2)) else [] }
+    let world : Ctx.World Float :=
+      { ctorById := fun id => userCtor ce (String.ofList id)
+        builtin := Registry.builtin Float ce
+        ellpsKnown := ellpsKnown
+        fileResource := fun _ => none
+        sem := sem
+        nan := Float.ofBits 0x7FF8000000000000
+        actionOf := Ops.actionOf Float
+        globals := globals }
+    let (_, outs) := calls.foldl (fun (acc : Ctx.State Float × List String) call =>
+      let parts := call.splitOn "|"
+      let c : Option (Ctx.Call Float) :=
+        match parts with
+        | ["R", n, t] => some (.registerOp (u n) t.toList)
+        | ["S", n, b] => some (.registerResource (u n) (u b))
+        | ["O", d] => some (.op (u d))
+        | ["A", h, dir, data] => some (.apply h.toNat! (parseDir dir) (parseData data))
+        | ["T", h] => some (.steps h.toNat!)
+        | ["P", h, i] => some (.params h.toNat! i.toNat!)
+        | _ => none
+      match c with
+      | none => (acc.1, acc.2 ++ ["bad-call"])
+      | some c =>
+        let (s', o) := Ctx.step world acc.1 c
+        let txt := match o with
+          | .unit => "-"
+          | .handle k => "h" ++ toString k
+          | .err e => "err " ++ e.name
+          | .applied n d => "n=" ++ toString n ++ " data=" ++ dumpData d
+          | .stepList l => dumpList l
+          | .parsed p => dumpParsed p
+        (s', acc.2 ++ [txt])) (init, [])
+    " ;; ".intercalate outs
+  | _ => "bad-case"
+
+/-- the register branch of `Plain::get_resource` on a file's text -/
+def handleReg (fields : List String) : String :=
+  match fields with
+  | [content, suffix] =>
+    match Ctx.registerItem (u content) (u suffix) with
+    | some t => "ok " ++ escape t
+    | none => "none"
+  | _ => "bad-case"
+
 def handle (line : String) : String :=
   match line.splitOn "\t" with
+  | "HIST" :: rest => handleHist rest
+  | "REG" :: rest => handleReg rest
   | "PROJ" :: rest => handleProj rest
   | "OP" :: rest => handleOp rest
   | "TOK" :: rest => handleTok rest
